@@ -2,7 +2,8 @@
    interpreter against Model (otto's bridge code) and the exact-or-error
    conversion the property asks for *)
 From Coq Require Import ZArith Bool List.
-From Otto Require Import Common.Corr Common.Double C16.Model.
+From Otto Require Import Common.Corr.
+From Otto Require Export Common.Double C16.Model C16.ModelCont C16.ModelCall.
 Import ListNotations.
 Open Scope Z_scope.
 
@@ -32,7 +33,21 @@ Inductive case :=
 | CStore (cont : Z) (v : sval) (t : nk) (o : obs) (js : option Z)
 (* call with len arguments of a function with nargs parameters: error class
    (0 none) and how many fixed / variadic-tail values the function received *)
-| CArity (nargs : Z) (variadic : bool) (len : Z) (err : Z) (fixed tail : Z).
+| CArity (nargs : Z) (variadic : bool) (len : Z) (err : Z) (fixed tail : Z)
+(* histories on bridged containers, script and Go operations interleaved;
+   one observation per operation *)
+| CSlice (addr : bool) (elems : list Z) (cap : Z) (ops : list sop) (o : list ob)
+| CArray (elems : list Z) (ops : list sop) (o : list ob)
+| CMap (init : list (Z * Z)) (ops : list mop) (o : list ob)
+| CStruct (fs : list fld) (uppers methods : list Z) (init : list (list Z)) (ops : list top) (o : list ob)
+(* f(args...) for a Go function with these parameter types: CV (GVStruct received) or CE class *)
+| CCall (tys : list gty) (variadic : bool) (args : list jsv) (o : cres)
+(* a Go function returning these values, as the script sees the result:
+   undefined / the value / an array with one entry per value *)
+| CRet (vals : list gv) (isarr : bool) (o : list jobs)
+(* pinned witness of a recorded defect that is not modelled: how = 0 the
+   defect as recorded, 1 the behaviour the property asks for, 2 anything else *)
+| CPinned (cls : Z) (how : Z).
 
 (* what a script reads from a bridged numeric element: the double nearest to it *)
 Definition js_read (o : outcome) : option dclass :=
@@ -68,6 +83,36 @@ Definition store_class (v : sval) (t : nk) : Z :=
 Definition sval_wf (v : sval) : bool :=
   match v with SNum s => src_wf s | SStr b => (0 <=? b) && (b <? 2 ^ 64) | _ => true end.
 
+Definition ob_eqb (a b : ob) : bool := (fst a =? fst b) && (snd a =? snd b).
+Definition obs_eqb := list_eqb ob_eqb.
+
+(* the operation at which otto's machine and the ideal one first answer differently *)
+Fixpoint first_diff {O} (ops : list O) (a b : list ob) : option (O * ob) :=
+  match ops, a, b with
+  | o :: ops', x :: a', y :: b' => if ob_eqb x y then first_diff ops' a' b' else Some (o, x)
+  | _, _, _ => None
+  end.
+
+(* more finding classes
+   6  shrinking / pop / negative length on a bridged slice panics (SetLen on an unaddressable value)
+   7  append / growth through a struct-field slice is lost (goes to a copy)
+   8  `i in s` is true for every index
+   10 a field tagged json:"-" is readable but writes to it are dropped *)
+Definition slice_class (ops : list sop) (m i : list ob) : Z :=
+  match first_diff ops m i with
+  | Some (JHas _, _) => 8
+  | Some (JSetLen _, (2, _)) | Some (JPop, (2, _)) => 6
+  | Some (JSet _ _, (2, _)) | Some (JPush _, (2, _)) => 5
+  | Some (JSet _ _, _) | Some (JPush _, _) => 2
+  | _ => 7
+  end.
+Definition map_class (ops : list mop) (m i : list ob) : Z :=
+  match first_diff ops m i with
+  | Some (MJSet _ _, (2, _)) => 5
+  | _ => 2
+  end.
+Definition in_list (l : list Z) (x : Z) : bool := existsb (Z.eqb x) l.
+
 Definition verdict (c : case) : Z * Z :=
   match c with
   | CNum _ s t o =>
@@ -83,4 +128,33 @@ Definition verdict (c : case) : Z * Z :=
       let e := arity_check nargs variadic len in
       let sh := if e =? 0 then call_shape nargs variadic len else (-1, -1) in
       judge (list_eqb Z.eqb) [err; fixed; tail] [e; fst sh; snd sh] [e; fst sh; snd sh] 0
+  | CSlice addr elems cap ops o =>
+      let m := srun addr false (sinit elems cap) ops in
+      let i := srun addr true (sinit elems cap) ops in
+      judge obs_eqb o m i (slice_class ops m i)
+  | CArray elems ops o =>
+      let m := arun false elems ops in
+      let i := arun true elems ops in
+      judge obs_eqb o m i (slice_class ops m i)
+  | CMap init ops o =>
+      let m := mrun false init ops in
+      let i := mrun true init ops in
+      judge obs_eqb o m i (map_class ops m i)
+  | CStruct fs uppers methods init ops o =>
+      let m := trun fs (in_list uppers) methods false (mkT init []) ops in
+      let i := trun fs (in_list uppers) methods true (mkT init []) ops in
+      judge obs_eqb o m i 10
+  | CCall tys variadic args o =>
+      let m := call false false 12 tys variadic args in
+      match m with
+      | CDecl => declined
+      | _ =>
+          let i := call true true 12 tys variadic args in
+          judge cres_eqb o m i (if cres_eqb (call true false 12 tys variadic args) m then 11 else 1)
+      end
+  | CRet vals isarr o =>
+      let e := (match vals with [] => [JoUndef] | _ => ret_values vals end,
+                match vals with _ :: _ :: _ => true | _ => false end) in
+      judge (fun a b => list_eqb jobs_eqb (fst a) (fst b) && Bool.eqb (snd a) (snd b)) (o, isarr) e e 0
+  | CPinned cls how => judge Z.eqb how 0 1 cls
   end.
